@@ -35,15 +35,26 @@ an `.attempt n` logged directly on top of the `.loadForm f true` it caused (`ret
    `attempt_bound` — hence
    `attemptsOf n ≤ pushesOf n · (1 + #distinct lines waited on + #distinct inputs waited on)
                     + |specRetries n|`, the retried forms are pairwise distinct, and
-   `pushesOf n ≤ 1 + extra.count n + loadPushes C n` (once on demand, once per occurrence among the
-   requested extra fields, once per occurrence in the required list of every FULL form load;
-   `loadPushes_le_formLoads`: with duplicate-free required lists that is the number of times `n`'s
-   own form was loaded).
+   `pushesOf n ≤ max 1 (extra.count n + loadPushes C n)`; `pushes_exact`: `n` is queued EITHER only
+   by full form loads (once per occurrence in the required list of every loaded form,
+   `loadPushes`; `loadPushes_le_formLoads`: with duplicate-free required lists that is the number of
+   loads of `n`'s own form) and as a requested extra field, OR exactly once, by a demand, and then by
+   nothing else.  `loads_distinct`: if the request names no form twice, no form is ever loaded in
+   full twice.
    `attempt_bound_queued_once` — if `n` was queued once: it registers a wait on each line and
-   each input at most once and `attemptsOf n ≤ 1 + #waits + #retries` (the wording of C06).
-   The factor `pushesOf n` is NOT an artefact: a required line of a form that is loaded on demand
-   is queued twice by solver.py (`_add_form` and then `_add_unattempted`), registers every wait
-   twice and is evaluated `2·(1 + #waits)` times by the real code (see the report).
+   each input at most once and `attemptsOf n ≤ 1 + #waits + #retries`.
+   `queued_at_most_once`, `attempt_bound_additive` — C06 IN ITS OWN WORDING: if the requested forms
+   are pairwise distinct, required lists are duplicate-free, and the extra fields are pairwise
+   distinct and not required lines, then EVERY line is queued at most once, waits at most once for
+   each line and each input, and is evaluated at most
+   `1 + #distinct lines waited on + #distinct inputs waited on + #input specifications it loaded`
+   times.
+   History: the first version of this file was proved about solver.py as found, where `demand`
+   enqueued a line even if the form load had just scheduled it; a required line of a form loaded
+   on demand was then queued twice, registered every wait twice and was evaluated `2·(1 + #waits)`
+   times by the real code (reproduced; fixed in /repo commit 49aa60d, the model follows the fix:
+   `demand` enqueues exactly when the line is not being solved after the optional load).  The
+   factor `pushesOf n` in `attempt_bound` remains for requests that name a form or a field twice.
 2. `prompt_at_most_once` — every input has at most one answered prompt in the log, an answered
    input is present, at most one prompt is refused, and nothing is prompted after a refusal.
 3. `solve_terminates` — if the request lives in a finite universe (`Universe C forms extra U UI`:
@@ -72,7 +83,9 @@ For a selection `p : N → Bool` of lines (`eqb n` for one line, `allN` for all)
 * `Acct.regV'/regI'` registrations on one dependency `≤ #pushes`
 * `Acct.top` / `RetryI` no input-only load is on top of the log; retried forms are distinct and
                  their inputs are specified ever after
-* `PushB`       `#pushes of n ≤ [n ∈ solving] + #extra + loadPushes`
+* `PushS`       `#pushes of n = #extra + loadPushes` and `n` is being solved once queued, OR `n` was
+                 queued once by a demand and `#extra + loadPushes = 0`
+* `LoadsI`      (request without repeated forms) the full loads are distinct = the loaded forms
 * `PrI`         answered inputs are distinct and present; `refused = false → no refusal logged`;
                  no prompt above a refusal
 * `InU`         (termination) the demanded set, every dependency waited on and every prompted
@@ -439,24 +452,37 @@ theorem addForm_log {s s' : St N I F V S} {f : F} {b : Bool} (h : addForm C σ s
     | true => simp only [if_true] at h; cases h; rfl
     | false => simp only [Bool.false_eq_true, if_false] at h; cases h; rfl
 
-/-- the three ways `demand` succeeds -/
+/-- the ways `demand` succeeds: nothing to do; or an optional full load of `m`'s form followed by
+an enqueue of `m` EXACTLY when the load has not already scheduled it -/
 theorem demand_cases {s s1 : St N I F V S} {m : N} (h : demand C σ s m = .ok s1) :
     (m ∈ s.solving ∧ s1 = s) ∨
     (m ∉ s.solving ∧ ∃ t : St N I F V S,
       ((m ∈ s.fmap ∧ t = s) ∨
         (m ∉ s.fmap ∧ ∃ f, C.formOfN m = some f ∧ addForm C σ s f false = .ok t)) ∧
       m ∈ t.fmap ∧
-      s1 = { t with queue := σ.sortQ (t.queue ++ [m]), solving := t.solving ++ [m] }) := by
+      ((m ∈ t.solving ∧ s1 = t) ∨
+       (m ∉ t.solving ∧
+        s1 = { t with queue := σ.sortQ (t.queue ++ [m]), solving := t.solving ++ [m], log := .push m :: t.log }))) := by
   unfold demand at h
   split at h
   · rename_i hm; cases h; exact Or.inl ⟨hm, rfl⟩
   · rename_i hm
     refine Or.inr ⟨hm, ?_⟩
+    have key : ∀ t : St N I F V S, m ∈ t.fmap →
+        (if m ∈ t.solving then Except.ok t else
+          (Except.ok { t with queue := σ.sortQ (t.queue ++ [m]), solving := t.solving ++ [m], log := .push m :: t.log } :
+            Res N I F (St N I F V S))) = .ok s1 →
+        ((m ∈ t.solving ∧ s1 = t) ∨
+         (m ∉ t.solving ∧
+          s1 = { t with queue := σ.sortQ (t.queue ++ [m]), solving := t.solving ++ [m], log := .push m :: t.log })) := by
+      intro t _ ht
+      split at ht
+      · rename_i hmt; cases ht; exact Or.inl ⟨hmt, rfl⟩
+      · rename_i hmt; cases ht; exact Or.inr ⟨hmt, rfl⟩
     split at h
     · rename_i hmf
       simp only [hmf, if_true] at h
-      cases h
-      exact ⟨s, Or.inl ⟨hmf, rfl⟩, hmf, rfl⟩
+      exact ⟨s, Or.inl ⟨hmf, rfl⟩, hmf, key s hmf h⟩
     · rename_i hmf
       cases hfo : C.formOfN m with
       | none => simp [hfo] at h
@@ -468,10 +494,18 @@ theorem demand_cases {s s1 : St N I F V S} {m : N} (h : demand C σ s m = .ok s1
           simp only [hadd] at h
           split at h
           · rename_i hmf0
-            cases h
-            exact ⟨s0, Or.inr ⟨hmf, f, rfl, hadd⟩, hmf0, rfl⟩
+            exact ⟨s0, Or.inr ⟨hmf, f, rfl, hadd⟩, hmf0, key s0 hmf0 h⟩
           · simp at h
 
+/-- a form that `demand` loads (successfully) was not loaded before -/
+theorem demand_load_new {L : List N} {s t : St N I F V S} {m : N} {f : F} (hinv : Inv C L s)
+    (hmf : m ∉ s.fmap) (hadd : addForm C σ s f false = .ok t) (hmt : m ∈ t.fmap) : f ∉ s.forms := by
+  intro hf
+  obtain ⟨_, _, _, _, _, _, _, _, _, hF⟩ := addForm_ok hadd
+  obtain ⟨_, hfm, _, _⟩ := hF rfl
+  rcases (hfm m).mp hmt with h | h
+  · exact hmf h
+  · exact hmf ((hinv.formsLoaded f hf).1 m h)
 
 /-- **Case analysis of one `_attempt_field`**, with the invariant available in every case; the
 `MissingInputSpecification` retry is the only recursive case. -/
@@ -481,9 +515,7 @@ theorem attemptField_cases (hC : CatWF C) (hσ : SchedOK σ) {L : List N} {n : N
       M s { s with v := assocSet s.v n x, fdeps := s.fdeps.meet n, log := .attempt n :: s.log })
     (needV : ∀ (s s1 : St N I F V S) (m : N), Inv C (n :: L) s → s.attempt C n = .needV m →
       demand C σ s m = .ok s1 →
-      M s { s1 with fdeps := s1.fdeps.addUnmet m n,
-                    log := .waitV n m :: .attempt n ::
-                      (if m ∈ s.solving then s1.log else .push m :: s1.log) })
+      M s { s1 with fdeps := s1.fdeps.addUnmet m n, log := .waitV n m :: .attempt n :: s1.log })
     (needI : ∀ (s : St N I F V S) (x : I), Inv C (n :: L) s → s.attempt C n = .needI x →
       M s { s with ideps := s.ideps.addUnmet x n, log := .waitI n x :: .attempt n :: s.log })
     (notImpl : ∀ (s : St N I F V S), Inv C (n :: L) s → s.attempt C n = .notImpl →
@@ -1234,6 +1266,24 @@ theorem refusals_le_prompts (l : List (Event N I F S)) : refusals l ≤ prompts 
   | prompt x nb a => rfl
   | _ => simp [Event.isRefusal] at he
 
+/-- what `demand` appends to the log: enqueues and at most one full load, no prompt -/
+theorem demand_log {s s1 : St N I F V S} {m : N} (hd : demand C σ s m = .ok s1) :
+    ∃ pre1, s1.log = pre1 ++ s.log ∧ prompts pre1 = 0 := by
+  rcases demand_cases hd with ⟨_, rfl⟩ | ⟨_, t, ht, _, hs1⟩
+  · exact ⟨[], rfl, rfl⟩
+  · have kt : ∃ pre0, t.log = pre0 ++ s.log ∧ prompts pre0 = 0 := by
+      rcases ht with ⟨_, rfl⟩ | ⟨_, f, _, hadd⟩
+      · exact ⟨[], rfl, rfl⟩
+      · have hl : t.log = _ := addForm_log hadd
+        simp only [Bool.false_eq_true, if_false] at hl
+        refine ⟨List.map Event.push (C.required f).reverse ++ [Event.loadForm f false], ?_, ?_⟩
+        · rw [hl]; simp
+        · rw [prompts_map_push]; simp
+    obtain ⟨pre0, k1, k2⟩ := kt
+    rcases hs1 with ⟨_, rfl⟩ | ⟨_, rfl⟩
+    · exact ⟨pre0, k1, k2⟩
+    · exact ⟨.push m :: pre0, by show Event.push m :: t.log = _; rw [k1]; rfl, by simpa using k2⟩
+
 /-- **what one `_attempt_field` appends to the log**: no prompt, at least one evaluation -/
 theorem attemptField_log (hC : CatWF C) (hσ : SchedOK σ) {L : List N} {n : N} (fuel : Nat)
     {s s' : St N I F V S} (hinv : Inv C (n :: L) s) (h : attemptField C σ fuel s n = .ok s') :
@@ -1244,22 +1294,10 @@ theorem attemptField_log (hC : CatWF C) (hσ : SchedOK σ) {L : List N} {n : N} 
   · intro s x _ _
     exact ⟨[.attempt n], rfl, by simp, by simp [allN]⟩
   · intro s s1 m _ _ hd
-    have key : ∃ pre1, s1.log = pre1 ++ s.log ∧ prompts pre1 = 0 := by
-      rcases demand_cases hd with ⟨_, rfl⟩ | ⟨_, t, ht, _, rfl⟩
-      · exact ⟨[], rfl, rfl⟩
-      · rcases ht with ⟨_, rfl⟩ | ⟨_, f, _, hadd⟩
-        · exact ⟨[], rfl, rfl⟩
-        · have hl : t.log = _ := addForm_log hadd
-          simp only [Bool.false_eq_true, if_false] at hl
-          refine ⟨List.map Event.push (C.required f).reverse ++ [Event.loadForm f false], ?_, ?_⟩
-          · show t.log = _
-            rw [hl]; simp
-          · rw [prompts_map_push]; simp
-    obtain ⟨pre1, h1, h2⟩ := key
-    by_cases hm : m ∈ s.solving
-    · refine ⟨.waitV n m :: .attempt n :: pre1, by simp [hm, h1], by simpa using h2, by simp [allN]⟩
-    · refine ⟨.waitV n m :: .attempt n :: .push m :: pre1, by simp [hm, h1], by simpa using h2,
-        by simp [allN]⟩
+    obtain ⟨pre1, h1, h2⟩ := demand_log hd
+    refine ⟨.waitV n m :: .attempt n :: pre1, ?_, by simpa using h2, by simp [allN]⟩
+    show Event.waitV n m :: Event.attempt n :: s1.log = _
+    rw [h1]; rfl
   · intro s x _ _
     exact ⟨[.waitI n x, .attempt n], rfl, by simp, by simp [allN]⟩
   · intro s _ _
@@ -1272,6 +1310,19 @@ theorem attemptField_log (hC : CatWF C) (hσ : SchedOK σ) {L : List N} {n : N} 
     · rw [h1]; show pre ++ (Event.attempt n :: s1.log) = _; rw [hl]; simp
     · rw [prompts_append, h2]; simp
     · rw [attempted_append, List.length_append]; omega
+
+/-- `demand` (an optional full load, an optional enqueue) preserves the accounting -/
+theorem Acct.demand (hσ : SchedOK σ) {p : N → Bool} {L : List N} {s s1 : St N I F V S} {m : N}
+    (ha : Acct p L s) (hd : demand C σ s m = .ok s1) : Acct p L s1 := by
+  rcases demand_cases hd with ⟨_, rfl⟩ | ⟨_, t, ht, _, hs1⟩
+  · exact ha
+  · have hat : Acct p L t := by
+      rcases ht with ⟨_, rfl⟩ | ⟨_, f, _, hadd⟩
+      · exact ha
+      · exact ha.load hσ hadd
+    rcases hs1 with ⟨_, rfl⟩ | ⟨_, rfl⟩
+    · exact hat
+    · exact hat.push hσ rfl rfl rfl rfl rfl rfl
 
 /-- one `_attempt_field` preserves the accounting -/
 theorem Acct.field (hC : CatWF C) (hσ : SchedOK σ) {p : N → Bool} {L : List N} {n : N} (fuel : Nat)
@@ -1289,18 +1340,9 @@ theorem Acct.field (hC : CatWF C) (hσ : SchedOK σ) {p : N → Bool} {L : List 
     · exact this
   · intro s s1 m hinv hm hd ha
     have hvm : s.vf m = none := run_needV_absent _ _ _ _ _ hm
-    rcases demand_cases hd with ⟨hmem, rfl⟩ | ⟨hmem, t, ht, _, rfl⟩
-    · exact ha.waitV hinv.fwf hvm (by simp [hmem]) rfl rfl rfl rfl rfl
-    · have hat : Acct p (n :: L) t ∧ t.vf m = none ∧ WF t.fdeps := by
-        rcases ht with ⟨_, rfl⟩ | ⟨_, f, _, hadd⟩
-        · exact ⟨ha, hvm, hinv.fwf⟩
-        · obtain ⟨_, hv, _, hfd, _⟩ := addForm_ok hadd
-          exact ⟨ha.load hσ hadd, by rw [vf_congr hv]; exact hvm, by rw [hfd]; exact hinv.fwf⟩
-      obtain ⟨hat, hvt, hwt⟩ := hat
-      let t1 : St N I F V S :=
-        { t with queue := σ.sortQ (t.queue ++ [m]), solving := t.solving ++ [m], log := .push m :: t.log }
-      have h1 : Acct p (n :: L) t1 := hat.push hσ rfl rfl rfl rfl rfl rfl
-      exact h1.waitV (s := t1) hwt hvt (by simp [hmem, t1]) rfl rfl rfl rfl rfl
+    obtain ⟨hinv1, post⟩ := demand_inv hC hσ hinv hd
+    have hvm1 : s1.vf m = none := by rw [vf_congr post.v]; exact hvm
+    exact (ha.demand hσ hd).waitV hinv1.fwf hvm1 rfl rfl rfl rfl rfl rfl
   · intro s x hinv hx ha
     have hmiss : s.inf C x = .missing := run_needI_missing _ _ _ _ _ hx
     exact ha.waitI hinv.iwf (inpf_none_of_missing hmiss).1 rfl rfl rfl rfl rfl rfl
@@ -1452,23 +1494,25 @@ theorem RetryI.field (hC : CatWF C) (hσ : SchedOK σ) {L : List N} {n : N} (fue
       (retryForms_attempt_of_top p _ n hr.top) (fun _ h => h)
   · intro s s1 m _ _ hd hr
     have key : NoLoadTop s1.log ∧ retryForms p s1.log = retryForms p s.log := by
-      rcases demand_cases hd with ⟨_, rfl⟩ | ⟨_, t, ht, _, rfl⟩
+      rcases demand_cases hd with ⟨_, rfl⟩ | ⟨_, t, ht, _, hs1⟩
       · exact ⟨hr.top, rfl⟩
-      · rcases ht with ⟨_, rfl⟩ | ⟨_, f, _, hadd⟩
-        · exact ⟨hr.top, rfl⟩
-        · have hl := addForm_log hadd
-          simp only [Bool.false_eq_true, if_false] at hl
-          show NoLoadTop t.log ∧ retryForms p t.log = retryForms p s.log
-          rw [hl]
-          refine ⟨noLoadTop_map_push _ _ (noLoadTop_cons _ (by intro g hg; cases hg)), ?_⟩
-          rw [retryForms_map_push]; simp
+      · have kt : NoLoadTop t.log ∧ retryForms p t.log = retryForms p s.log := by
+          rcases ht with ⟨_, rfl⟩ | ⟨_, f, _, hadd⟩
+          · exact ⟨hr.top, rfl⟩
+          · have hl := addForm_log hadd
+            simp only [Bool.false_eq_true, if_false] at hl
+            rw [hl]
+            refine ⟨noLoadTop_map_push _ _ (noLoadTop_cons _ (by intro g hg; cases hg)), ?_⟩
+            rw [retryForms_map_push]; simp
+        rcases hs1 with ⟨_, rfl⟩ | ⟨_, rfl⟩
+        · exact kt
+        · refine ⟨noLoadTop_cons _ (by intro g hg; cases hg), ?_⟩
+          show retryForms p (.push m :: t.log) = _
+          rw [retryForms_push, kt.2]
     have hsp := (demand_grow hd).specs
     refine hr.extend (noLoadTop_cons _ (by intro g hg; cases hg)) ?_ hsp
-    show retryForms p (.waitV n m :: .attempt n :: (if m ∈ s.solving then s1.log else .push m :: s1.log)) = _
-    split
-    · rw [retryForms_waitV, retryForms_attempt_of_top p _ n key.1, key.2]
-    · rw [retryForms_waitV, retryForms_attempt_of_top p _ n
-        (noLoadTop_cons _ (by intro g hg; cases hg)), retryForms_push, key.2]
+    show retryForms p (.waitV n m :: .attempt n :: s1.log) = _
+    rw [retryForms_waitV, retryForms_attempt_of_top p _ n key.1, key.2]
   · intro s x _ _ hr
     refine hr.extend (noLoadTop_cons _ (by intro g hg; cases hg)) ?_ (fun _ h => h)
     show retryForms p (.waitI n x :: .attempt n :: s.log) = _
@@ -1580,30 +1624,15 @@ theorem filter_eqb_length (n : N) (ns : List N) : (ns.filter (eqb n)).length = n
     · subst hk; simp [eqb, List.filter_cons, ih]
     · simp [eqb, List.filter_cons, hk, ih, List.count_cons_of_ne hk]
 
-/-- `n` was enqueued at most once by a demand, `e` times as an explicitly requested field, and
-once per occurrence in the required list of every fully loaded form -/
-def PushB (C : Cat N I F V S) (n : N) (e : Nat) (s : St N I F V S) : Prop :=
-  (pushed (eqb n) s.log).length ≤ (if n ∈ s.solving then 1 else 0) + e + loadPushes C n s.log
+/-- **How `n` got onto the queue.**  Either only through full form loads and as a requested extra
+field (`e` times so far) — or exactly once, through a demand, and then never through a load and
+never as an extra field. -/
+def PushS (C : Cat N I F V S) (n : N) (e : Nat) (s : St N I F V S) : Prop :=
+  ((pushed (eqb n) s.log).length = e + loadPushes C n s.log ∧
+    (1 ≤ (pushed (eqb n) s.log).length → n ∈ s.solving)) ∨
+  ((pushed (eqb n) s.log).length = 1 ∧ e + loadPushes C n s.log = 0 ∧ n ∈ s.solving)
 
 variable {n : N}
-
-theorem PushB.step {s s' : St N I F V S} {e e' : Nat} (h : PushB C n e s) (dp dl : Nat)
-    (hp : (pushed (eqb n) s'.log).length = (pushed (eqb n) s.log).length + dp)
-    (hl : loadPushes C n s'.log = loadPushes C n s.log + dl)
-    (hsol : n ∈ s.solving → n ∈ s'.solving)
-    (hle : dp + e ≤ dl + e' + (if n ∈ s'.solving ∧ n ∉ s.solving then 1 else 0)) :
-    PushB C n e' s' := by
-  unfold PushB at h ⊢
-  rw [hp, hl]
-  by_cases h1 : n ∈ s.solving
-  · have h2 := hsol h1
-    simp only [h1, h2, if_true, not_true_eq_false, and_false, if_false] at h hle ⊢
-    omega
-  · by_cases h2 : n ∈ s'.solving
-    · simp only [h1, h2, if_true, if_false, not_false_eq_true, and_self] at h hle ⊢
-      omega
-    · simp only [h1, h2, if_false, false_and] at h hle ⊢
-      omega
 
 theorem loadPushes_load (f : F) (l : List (Event N I F S)) :
     loadPushes C n ((C.required f).reverse.map Event.push ++ .loadForm f false :: l) =
@@ -1621,70 +1650,114 @@ theorem pushed_length_load (f : F) (l : List (Event N I F S)) :
     filter_eqb_length]
   omega
 
-theorem PushB.load {s s' : St N I F V S} {e : Nat} {f : F} (h : PushB C n e s)
-    (ha : addForm C σ s f false = .ok s') : PushB C n e s' := by
+/-- steps that neither enqueue `n` nor load a form in full -/
+theorem PushS.frame {s s' : St N I F V S} {e : Nat} (h : PushS C n e s)
+    (hp : (pushed (eqb n) s'.log).length = (pushed (eqb n) s.log).length)
+    (hl : loadPushes C n s'.log = loadPushes C n s.log)
+    (hsol : n ∈ s.solving → n ∈ s'.solving) : PushS C n e s' := by
+  unfold PushS at h ⊢
+  rw [hp, hl]
+  rcases h with ⟨a, b⟩ | ⟨a, b, c⟩
+  · exact Or.inl ⟨a, fun h1 => hsol (b h1)⟩
+  · exact Or.inr ⟨a, b, hsol c⟩
+
+/-- a full load while `n` has not been demanded (always the case before the main loop) -/
+theorem PushS.loadA {s s' : St N I F V S} {e : Nat} {f : F}
+    (h : (pushed (eqb n) s.log).length = e + loadPushes C n s.log ∧
+      (1 ≤ (pushed (eqb n) s.log).length → n ∈ s.solving))
+    (ha : addForm C σ s f false = .ok s') :
+    (pushed (eqb n) s'.log).length = e + loadPushes C n s'.log ∧
+      (1 ≤ (pushed (eqb n) s'.log).length → n ∈ s'.solving) := by
   have hl := addForm_log ha
   simp only [Bool.false_eq_true, if_false] at hl
-  refine h.step ((C.required f).count n) ((C.required f).count n) ?_ ?_
-    ((addForm_grow ha).sol n) (by omega)
-  · rw [hl]; exact pushed_length_load f _
-  · rw [hl]; exact loadPushes_load f _
+  obtain ⟨_, _, _, _, _, _, _, _, _, hF⟩ := addForm_ok ha
+  obtain ⟨_, _, _, hsol⟩ := hF rfl
+  rw [hl, pushed_length_load, loadPushes_load]
+  refine ⟨by omega, fun h1 => ?_⟩
+  by_cases h0 : 1 ≤ (pushed (eqb n) s.log).length
+  · exact (hsol n).mpr (Or.inl (h.2 h0))
+  · have : 0 < (C.required f).count n := by omega
+    exact (hsol n).mpr (Or.inr (List.count_pos_iff.mp this))
 
-theorem PushB.field (hC : CatWF C) (hσ : SchedOK σ) {L : List N} {k : N} {e : Nat} (fuel : Nat)
-    {s s' : St N I F V S} (hinv : Inv C (k :: L) s) (hb : PushB C n e s)
-    (h : attemptField C σ fuel s k = .ok s') : PushB C n e s' := by
-  refine attemptField_cases hC hσ (L := L) (fun s s' => PushB C n e s → PushB C n e s')
+/-- a full load of a form that is not loaded yet -/
+theorem PushS.load (hC : CatWF C) {L : List N} {s s' : St N I F V S} {e : Nat} {f : F}
+    (hinv : Inv C L s) (h : PushS C n e s) (hnew : f ∉ s.forms)
+    (ha : addForm C σ s f false = .ok s') : PushS C n e s' := by
+  rcases h with h | ⟨a, b, c⟩
+  · exact Or.inl (PushS.loadA h ha)
+  · have hl := addForm_log ha
+    simp only [Bool.false_eq_true, if_false] at hl
+    have hc0 : (C.required f).count n = 0 := by
+      apply List.count_eq_zero_of_not_mem
+      intro hreq
+      have h1 : C.formOfN n = some f := hC.fieldsForm f n (hC.requiredSub f n hreq)
+      obtain ⟨g, hg1, hg2⟩ := hinv.fmapForm n (hinv.solFmap n c)
+      have h2 : C.formOfN n = some g := hC.fieldsForm g n hg2
+      rw [h1] at h2
+      cases h2
+      exact hnew hg1
+    refine Or.inr ⟨?_, ?_, (addForm_grow ha).sol n c⟩
+    · rw [hl, pushed_length_load, hc0]; exact a
+    · rw [hl, loadPushes_load, hc0]; exact b
+
+/-- the enqueue of a demanded line `m` that is not being solved -/
+theorem PushS.pushDemand {t t' : St N I F V S} {e : Nat} {m : N} (h : PushS C n e t)
+    (hm : m ∉ t.solving) (hlog : t'.log = .push m :: t.log)
+    (hsol : t'.solving = t.solving ++ [m]) : PushS C n e t' := by
+  by_cases hmn : m = n
+  · subst hmn
+    rcases h with ⟨a, b⟩ | ⟨_, _, c⟩
+    · have h0 : (pushed (eqb m) t.log).length = 0 := by
+        by_cases h1 : 1 ≤ (pushed (eqb m) t.log).length
+        · exact absurd (b h1) hm
+        · omega
+      refine Or.inr ⟨?_, ?_, by rw [hsol]; simp⟩
+      · rw [hlog]; simp [eqb, h0]
+      · rw [hlog]
+        have : loadPushes C m (.push m :: t.log) = loadPushes C m t.log := by simp [loadPushes]
+        rw [this]; omega
+    · exact absurd c hm
+  · refine h.frame ?_ ?_ (fun hn => by rw [hsol]; exact List.mem_append_left _ hn)
+    · rw [hlog]; simp [eqb, hmn]
+    · rw [hlog]; simp [loadPushes]
+
+theorem PushS.demand (hC : CatWF C) {L : List N} {s s1 : St N I F V S} {e : Nat} {m : N}
+    (hinv : Inv C L s) (h : PushS C n e s) (hd : demand C σ s m = .ok s1) : PushS C n e s1 := by
+  rcases demand_cases hd with ⟨_, rfl⟩ | ⟨_, t, ht, hmt, hs1⟩
+  · exact h
+  · have kt : PushS C n e t := by
+      rcases ht with ⟨_, rfl⟩ | ⟨hmf, f, _, hadd⟩
+      · exact h
+      · exact h.load hC hinv (demand_load_new hinv hmf hadd hmt) hadd
+    rcases hs1 with ⟨_, rfl⟩ | ⟨hm, rfl⟩
+    · exact kt
+    · exact kt.pushDemand hm rfl rfl
+
+theorem PushS.field (hC : CatWF C) (hσ : SchedOK σ) {L : List N} {k : N} {e : Nat} (fuel : Nat)
+    {s s' : St N I F V S} (hinv : Inv C (k :: L) s) (hb : PushS C n e s)
+    (h : attemptField C σ fuel s k = .ok s') : PushS C n e s' := by
+  refine attemptField_cases hC hσ (L := L) (fun s s' => PushS C n e s → PushS C n e s')
     ?_ ?_ ?_ ?_ ?_ fuel s s' hinv h hb
   · intro s x _ _ hb
-    exact hb.step 0 0 rfl rfl (fun h => h) (by omega)
-  · intro s s1 m _ _ hd hb
-    rcases demand_cases hd with ⟨hmem, rfl⟩ | ⟨hmem, t, ht, _, rfl⟩
-    · refine hb.step 0 0 ?_ ?_ (fun h => h) (by omega)
-      · simp [hmem]
-      · simp [hmem, loadPushes]
-    · have key : ∃ dl, (pushed (eqb n) t.log).length = (pushed (eqb n) s.log).length + dl ∧
-          loadPushes C n t.log = loadPushes C n s.log + dl ∧ (∀ j, j ∈ s.solving → j ∈ t.solving) := by
-        rcases ht with ⟨_, rfl⟩ | ⟨_, f, _, hadd⟩
-        · exact ⟨0, rfl, rfl, fun _ h => h⟩
-        · have hl := addForm_log hadd
-          simp only [Bool.false_eq_true, if_false] at hl
-          refine ⟨(C.required f).count n, ?_, ?_, (addForm_grow hadd).sol⟩
-          · rw [hl]; exact pushed_length_load f _
-          · rw [hl]; exact loadPushes_load f _
-      obtain ⟨dl, h1, h2, h3⟩ := key
-      refine hb.step (dl + if m = n then 1 else 0) dl ?_ ?_ ?_ ?_
-      · show (pushed (eqb n) (.waitV k m :: .attempt k :: (if m ∈ s.solving then t.log else .push m :: t.log))).length = _
-        simp only [hmem, if_false, pushed_waitV, pushed_attempt, pushed_push, len_ite_cons, h1, eqb,
-          decide_eq_true_eq]
-        omega
-      · show loadPushes C n (.waitV k m :: .attempt k :: (if m ∈ s.solving then t.log else .push m :: t.log)) = _
-        simp only [hmem, if_false]
-        rw [← h2]; simp [loadPushes]
-      · intro hn
-        show n ∈ t.solving ++ [m]
-        exact List.mem_append_left _ (h3 n hn)
-      · by_cases hmn : m = n
-        · subst hmn
-          have : m ∈ t.solving ++ [m] ∧ m ∉ s.solving := ⟨by simp, hmem⟩
-          simp only [if_true]
-          rw [if_pos this]; omega
-        · simp only [hmn, if_false]; omega
+    exact hb.frame rfl rfl (fun h => h)
+  · intro s s1 m hinv _ hd hb
+    exact (hb.demand hC hinv hd).frame rfl rfl (fun h => h)
   · intro s x _ _ hb
-    exact hb.step 0 0 rfl rfl (fun h => h) (by omega)
+    exact hb.frame rfl rfl (fun h => h)
   · intro s _ _ hb
-    exact hb.step 0 0 rfl rfl (fun h => h) (by omega)
+    exact hb.frame rfl rfl (fun h => h)
   · intro s s1 s' x f _ _ _ hadd _ _ ih hb
     apply ih
     have hl := addForm_log hadd
     simp only [if_true, List.nil_append] at hl
-    refine hb.step 0 0 ?_ ?_ ((addForm_grow hadd).sol n) (by omega)
+    refine hb.frame ?_ ?_ ((addForm_grow hadd).sol n)
     · show (pushed (eqb n) (.attempt k :: s1.log)).length = _
       rw [hl]; simp
     · show loadPushes C n (.attempt k :: s1.log) = _
       rw [hl]; simp [loadPushes]
 
-theorem pushB_thread (hC : CatWF C) (hσ : SchedOK σ) (P : Nat → I → List N → Option S) (e : Nat) :
-    Thread C σ P (fun _ s => PushB C n e s) where
+theorem pushS_thread (hC : CatWF C) (hσ : SchedOK σ) (P : Nat → I → List N → Option S) (e : Nat) :
+    Thread C σ P (fun _ s => PushS C n e s) where
   relist := fun _ h => h
   pop := fun _ h _ => h
   field := fun hinv h ha => h.field hC hσ specFuel hinv ha
@@ -1694,8 +1767,79 @@ theorem pushB_thread (hC : CatWF C) (hσ : SchedOK σ) (P : Nat → I → List N
     intro L s s' x hinv href hxm hxk h ha
     obtain ⟨nb, _, hc⟩ := attemptInput_cases ha
     rcases hc with ⟨_, rfl⟩ | ⟨str, _, rfl⟩
-    · exact h.step 0 0 rfl rfl (fun h => h) (by omega)
-    · exact h.step 0 0 rfl rfl (fun h => h) (by omega)
+    · exact h.frame rfl rfl (fun h => h)
+    · exact h.frame rfl rfl (fun h => h)
+
+/-! ### no form is loaded in full twice (unless the request names it twice) -/
+
+/-- the full loads are pairwise distinct and are exactly the loaded forms -/
+structure LoadsI (s : St N I F V S) : Prop where
+  nodup : (fullLoads s.log).Nodup
+  iff : ∀ f, f ∈ fullLoads s.log ↔ f ∈ s.forms
+
+theorem LoadsI.frame {s s' : St N I F V S} (h : LoadsI s) (hl : fullLoads s'.log = fullLoads s.log)
+    (hf : s'.forms = s.forms) : LoadsI s' :=
+  ⟨by rw [hl]; exact h.nodup, by rw [hl, hf]; exact h.iff⟩
+
+theorem LoadsI.load {s s' : St N I F V S} {f : F} (h : LoadsI s) (hnew : f ∉ s.forms)
+    (ha : addForm C σ s f false = .ok s') : LoadsI s' := by
+  have hl := addForm_log ha
+  simp only [Bool.false_eq_true, if_false] at hl
+  obtain ⟨_, _, _, _, _, _, _, _, _, hF⟩ := addForm_ok ha
+  obtain ⟨hforms, _, _, _⟩ := hF rfl
+  have hfl : fullLoads s'.log = f :: fullLoads s.log := by rw [hl, fullLoads_map_push]; rfl
+  refine ⟨?_, ?_⟩
+  · rw [hfl]
+    exact List.nodup_cons.mpr ⟨fun hm => hnew ((h.iff f).mp hm), h.nodup⟩
+  · intro g
+    rw [hfl, List.mem_cons, hforms g, h.iff g]
+    exact Or.comm
+
+theorem LoadsI.field (hC : CatWF C) (hσ : SchedOK σ) {L : List N} {k : N} (fuel : Nat)
+    {s s' : St N I F V S} (hinv : Inv C (k :: L) s) (hb : LoadsI s)
+    (h : attemptField C σ fuel s k = .ok s') : LoadsI s' := by
+  refine attemptField_cases hC hσ (L := L) (fun s s' => LoadsI s → LoadsI s')
+    ?_ ?_ ?_ ?_ ?_ fuel s s' hinv h hb
+  · intro s x _ _ hb
+    exact hb.frame rfl rfl
+  · intro s s1 m hinv _ hd hb
+    have k1 : LoadsI s1 := by
+      rcases demand_cases hd with ⟨_, rfl⟩ | ⟨_, t, ht, hmt, hs1⟩
+      · exact hb
+      · have kt : LoadsI t := by
+          rcases ht with ⟨_, rfl⟩ | ⟨hmf, f, _, hadd⟩
+          · exact hb
+          · exact hb.load (demand_load_new hinv hmf hadd hmt) hadd
+        rcases hs1 with ⟨_, rfl⟩ | ⟨_, rfl⟩
+        · exact kt
+        · exact kt.frame rfl rfl
+    exact k1.frame rfl rfl
+  · intro s x _ _ hb
+    exact hb.frame rfl rfl
+  · intro s _ _ hb
+    exact hb.frame rfl rfl
+  · intro s s1 s' x f _ _ _ hadd _ _ ih hb
+    apply ih
+    have hl := addForm_log hadd
+    simp only [if_true, List.nil_append] at hl
+    obtain ⟨_, _, _, _, _, _, _, _, hT, _⟩ := addForm_ok hadd
+    refine hb.frame ?_ (hT rfl).1
+    show fullLoads (.attempt k :: s1.log) = _
+    rw [hl]; rfl
+
+theorem loadsI_thread (hC : CatWF C) (hσ : SchedOK σ) (P : Nat → I → List N → Option S) :
+    Thread C σ P (fun _ s => LoadsI s) where
+  relist := fun _ h => h
+  pop := fun _ h _ => h.frame rfl rfl
+  field := fun hinv h ha => h.field hC hσ specFuel hinv ha
+  drainF := fun _ h _ => h.frame rfl rfl
+  drainI := fun _ h _ => h.frame rfl rfl
+  input := by
+    intro L s s' x hinv href hxm hxk h ha
+    obtain ⟨nb, _, hc⟩ := attemptInput_cases ha
+    rcases hc with ⟨_, rfl⟩ | ⟨str, _, rfl⟩
+    · exact h.frame rfl rfl
+    · exact h.frame rfl rfl
 
 /-! ## 7. The state in which the main loop starts -/
 
@@ -1762,9 +1906,14 @@ theorem work_addForms (hσ : SchedOK σ) :
     | error e => simp [h1] at ha
     | ok s1 => simp only [h1] at ha; exact ih (h.load hσ h1) ha
 
-theorem pushB_addForms {e : Nat} :
-    ∀ (fs : List F) {s s' : St N I F V S}, PushB C n e s → addForms C σ fs s = .ok s' →
-      PushB C n e s' := by
+/-- before the main loop `n` is enqueued only by full loads and as a requested extra field -/
+def PushA (C : Cat N I F V S) (n : N) (e : Nat) (s : St N I F V S) : Prop :=
+  (pushed (eqb n) s.log).length = e + loadPushes C n s.log ∧
+    (1 ≤ (pushed (eqb n) s.log).length → n ∈ s.solving)
+
+theorem pushA_addForms {e : Nat} :
+    ∀ (fs : List F) {s s' : St N I F V S}, PushA C n e s → addForms C σ fs s = .ok s' →
+      PushA C n e s' := by
   intro fs
   induction fs with
   | nil => intro s s' h ha; simp only [addForms] at ha; cases ha; exact h
@@ -1773,7 +1922,29 @@ theorem pushB_addForms {e : Nat} :
     simp only [addForms] at ha
     cases h1 : addForm C σ s f false with
     | error e => simp [h1] at ha
-    | ok s1 => simp only [h1] at ha; exact ih (h.load h1) ha
+    | ok s1 => simp only [h1] at ha; exact ih (PushS.loadA h h1) ha
+
+theorem loadsI_addForms :
+    ∀ (fs : List F) {s s' : St N I F V S}, LoadsI s → fs.Nodup → (∀ f ∈ fs, f ∉ s.forms) →
+      addForms C σ fs s = .ok s' → LoadsI s' := by
+  intro fs
+  induction fs with
+  | nil => intro s s' h _ _ ha; simp only [addForms] at ha; cases ha; exact h
+  | cons f fs ih =>
+    intro s s' h hnd hnew ha
+    simp only [addForms] at ha
+    cases h1 : addForm C σ s f false with
+    | error e => simp [h1] at ha
+    | ok s1 =>
+      simp only [h1] at ha
+      obtain ⟨_, _, _, _, _, _, _, _, _, hF⟩ := addForm_ok h1
+      obtain ⟨hforms, _, _, _⟩ := hF rfl
+      have hnd' := List.nodup_cons.mp hnd
+      refine ih (h.load (hnew f List.mem_cons_self) h1) hnd'.2 ?_ ha
+      intro g hg hg1
+      rcases (hforms g).mp hg1 with h2 | rfl
+      · exact hnew g (List.mem_cons_of_mem _ hg) h2
+      · exact hnd'.1 hg
 
 theorem work_addExtra (hσ : SchedOK σ) :
     ∀ (ns : List N) {s s' : St N I F V S}, Work C p [] s → addExtra σ ns s = .ok s' →
@@ -1791,9 +1962,22 @@ theorem work_addExtra (hσ : SchedOK σ) :
       · exact h.prompt.extend [.push k] rfl (by simp) rfl (fun _ hx => hx)
     · simp at ha
 
-theorem pushB_addExtra :
-    ∀ (ns : List N) {e : Nat} {s s' : St N I F V S}, PushB C n e s → addExtra σ ns s = .ok s' →
-      PushB C n (e + ns.count n) s' := by
+theorem loadsI_addExtra :
+    ∀ (ns : List N) {s s' : St N I F V S}, LoadsI s → addExtra σ ns s = .ok s' → LoadsI s' := by
+  intro ns
+  induction ns with
+  | nil => intro s s' h ha; simp only [addExtra] at ha; cases ha; exact h
+  | cons k ns ih =>
+    intro s s' h ha
+    simp only [addExtra] at ha
+    split at ha
+    · refine ih ?_ ha
+      exact h.frame rfl rfl
+    · simp at ha
+
+theorem pushA_addExtra :
+    ∀ (ns : List N) {e : Nat} {s s' : St N I F V S}, PushA C n e s → addExtra σ ns s = .ok s' →
+      PushA C n (e + ns.count n) s' := by
   intro ns
   induction ns with
   | nil => intro e s s' h ha; simp only [addExtra] at ha; cases ha; simpa using h
@@ -1805,6 +1989,10 @@ theorem pushB_addExtra :
         intro j hj; split
         · exact hj
         · exact List.mem_append_left _ hj
+      have hk : k ∈ (if k ∈ s.solving then s.solving else s.solving ++ [k]) := by
+        split
+        · assumption
+        · simp
       have := ih (e := e + if k = n then 1 else 0) ?_ ha
       · have hc : (k :: ns).count n = ns.count n + if k = n then 1 else 0 := by
           by_cases hk : k = n
@@ -1814,11 +2002,21 @@ theorem pushB_addExtra :
         have he : e + (if k = n then 1 else 0) + ns.count n = e + (ns.count n + if k = n then 1 else 0) := by
           omega
         rw [← he]; exact this
-      · refine h.step (if k = n then 1 else 0) 0 ?_ ?_ (hsol n) (by omega)
-        · show (pushed (eqb n) (.push k :: s.log)).length = _
-          simp [eqb, len_ite_cons]
-        · show loadPushes C n (.push k :: s.log) = _
-          simp [loadPushes]
+      · obtain ⟨a, b⟩ := h
+        have hlp : loadPushes C n (.push k :: s.log) = loadPushes C n s.log := by simp [loadPushes]
+        have hpl : (pushed (eqb n) (.push k :: s.log)).length =
+            (pushed (eqb n) s.log).length + if k = n then 1 else 0 := by simp [eqb, len_ite_cons]
+        refine ⟨?_, ?_⟩
+        · show (pushed (eqb n) (.push k :: s.log)).length = _ + loadPushes C n (.push k :: s.log)
+          rw [hlp, hpl]; omega
+        · intro h1
+          have h1' : 1 ≤ (pushed (eqb n) (.push k :: s.log)).length := h1
+          show n ∈ (if k ∈ s.solving then s.solving else s.solving ++ [k])
+          by_cases hkn : k = n
+          · rw [← hkn]; exact hk
+          · rw [hpl] at h1'
+            simp only [hkn, if_false, Nat.add_zero] at h1'
+            exact hsol n (b h1')
     · simp at ha
 
 /-- **Everything threaded holds of whatever `solve` returns.** -/
@@ -1833,18 +2031,29 @@ theorem solve_work (hC : CatWF C) (hσ : SchedOK σ) {Po : Option (Nat → I →
   have w2 := work_addExtra hσ extra w1 h2
   exact solveLoop_thr hC hσ (work_thread hC hσ _) fuel a2 b2 w2 h3
 
-theorem solve_pushB (hC : CatWF C) (hσ : SchedOK σ) {Po : Option (Nat → I → List N → Option S)}
+theorem solve_pushS (hC : CatWF C) (hσ : SchedOK σ) {Po : Option (Nat → I → List N → Option S)}
     {inp : List (I × S)} {forms : List F} {extra : List N} {fuel qfuel : Nat} {s : St N I F V S}
     (h : solve C σ Po inp forms extra fuel qfuel = .ok (some s)) (n : N) :
-    PushB C n (extra.count n) s := by
+    PushS C n (extra.count n) s := by
   obtain ⟨s1, s2, h1, h2, h3⟩ := solve_split h
   obtain ⟨a1, b1, _⟩ := addForms_inv hC hσ forms (initSt_inv inp _) (by simp [initSt]) h1
   obtain ⟨a2, b2⟩ := addExtra_inv hσ extra a1 b1 h2
-  have w0 : PushB C n 0 (initSt inp Po.isSome : St N I F V S) := by simp [PushB, initSt, loadPushes]
-  have w1 : PushB C n 0 s1 := pushB_addForms forms w0 h1
-  have w2 := pushB_addExtra extra w1 h2
+  have w0 : PushA C n 0 (initSt inp Po.isSome : St N I F V S) := by simp [PushA, initSt, loadPushes]
+  have w1 : PushA C n 0 s1 := pushA_addForms forms w0 h1
+  have w2 := pushA_addExtra extra w1 h2
   simp only [Nat.zero_add] at w2
-  exact solveLoop_thr hC hσ (pushB_thread hC hσ _ _) fuel a2 b2 w2 h3
+  exact solveLoop_thr hC hσ (pushS_thread hC hσ _ _) fuel a2 b2 (Or.inl w2) h3
+
+theorem solve_loadsI (hC : CatWF C) (hσ : SchedOK σ) {Po : Option (Nat → I → List N → Option S)}
+    {inp : List (I × S)} {forms : List F} {extra : List N} {fuel qfuel : Nat} {s : St N I F V S}
+    (h : solve C σ Po inp forms extra fuel qfuel = .ok (some s)) (hnd : forms.Nodup) : LoadsI s := by
+  obtain ⟨s1, s2, h1, h2, h3⟩ := solve_split h
+  obtain ⟨a1, b1, _⟩ := addForms_inv hC hσ forms (initSt_inv inp _) (by simp [initSt]) h1
+  obtain ⟨a2, b2⟩ := addExtra_inv hσ extra a1 b1 h2
+  have w0 : LoadsI (initSt inp Po.isSome : St N I F V S) := ⟨by simp [initSt], by simp [initSt]⟩
+  have w1 : LoadsI s1 := loadsI_addForms forms w0 hnd (by simp [initSt]) h1
+  have w2 := loadsI_addExtra extra w1 h2
+  exact solveLoop_thr hC hσ (loadsI_thread hC hσ _) fuel a2 b2 w2 h3
 
 end HabuVerif
 
@@ -1916,20 +2125,31 @@ theorem wait_multiplicity (hC : CatWF C) (hσ : SchedOK σ)
     (∀ x, (waitsOnInputs n s.log).count x ≤ pushesOf n s.log) :=
   ⟨(solve_work hC hσ h (eqb n)).acct.regV', (solve_work hC hσ h (eqb n)).acct.regI'⟩
 
+/-- **How a line gets onto the queue (exact).**  Either `n` was queued only by full form loads
+(once per occurrence in the required list of every loaded form) and as a requested extra field —
+or it was queued exactly once, by a demand, and then by nothing else. -/
+theorem pushes_exact (hC : CatWF C) (hσ : SchedOK σ)
+    (h : solve C σ Po inp forms extra fuel qfuel = .ok (some s)) (n : N) :
+    pushesOf n s.log = extra.count n + loadPushes C n s.log ∨
+    (pushesOf n s.log = 1 ∧ extra.count n + loadPushes C n s.log = 0) := by
+  rcases solve_pushS hC hσ h n with ⟨a, _⟩ | ⟨a, b, _⟩
+  · exact Or.inl a
+  · exact Or.inr ⟨a, b⟩
+
 /-- **C06, attempt bound.**  For every catalogue, schedule, prompt, inputs and request, in every
 state `solve` returns and for every line `n`:
 * the number of evaluations of `n` is at most
   `(times n was queued) · (1 + distinct lines waited on + distinct inputs waited on) + retries`;
 * the retries loaded pairwise distinct forms;
-* `n` was queued at most once on demand, once per occurrence in `extra`, and once per occurrence
-  in the required list of every fully loaded form. -/
+* `n` was queued at most `max 1 (occurrences in extra + occurrences in the required lists of the
+  fully loaded forms)` times (`pushes_exact` says which). -/
 theorem attempt_bound (hC : CatWF C) (hσ : SchedOK σ)
     (h : solve C σ Po inp forms extra fuel qfuel = .ok (some s)) (n : N) :
     attemptsOf n s.log ≤
       pushesOf n s.log * (1 + (waitsOnLines n s.log).dedup.length +
         (waitsOnInputs n s.log).dedup.length) + (specRetries n s.log).length ∧
     (specRetries n s.log).Nodup ∧
-    pushesOf n s.log ≤ 1 + extra.count n + loadPushes C n s.log := by
+    pushesOf n s.log ≤ max 1 (extra.count n + loadPushes C n s.log) := by
   have w := solve_work hC hσ h (eqb n)
   have hacc := attempt_accounting hC hσ h n
   obtain ⟨hV, hI⟩ := wait_multiplicity hC hσ h n
@@ -1937,11 +2157,7 @@ theorem attempt_bound (hC : CatWF C) (hσ : SchedOK σ)
   have h2 := length_le_mul_dedup hI
   refine ⟨?_, w.retry.nodup, ?_⟩
   · rw [Nat.mul_add, Nat.mul_add, Nat.mul_one]; omega
-  · have := solve_pushB hC hσ h n
-    unfold PushB at this
-    unfold pushesOf
-    have hb : (if n ∈ s.solving then 1 else 0 : Nat) ≤ 1 := by split <;> omega
-    omega
+  · rcases pushes_exact hC hσ h n with a | ⟨a, _⟩ <;> omega
 
 /-- **C06, attempt bound for a line that was queued once** (the normal case): `n` registers a
 wait on each line and on each input at most once, and is evaluated at most
@@ -1978,6 +2194,70 @@ theorem loadPushes_le_formLoads (hC : CatWF C) (hnd : ∀ f, (C.required f).Nodu
       split
       · simp only [List.length_cons]; omega
       · omega
+
+/-- **No form is loaded in full twice** when the request does not name a form twice: a form is
+loaded on demand only if it is not loaded (a demand for a line its loaded form does not have
+aborts). -/
+theorem loads_distinct (hC : CatWF C) (hσ : SchedOK σ)
+    (h : solve C σ Po inp forms extra fuel qfuel = .ok (some s)) (hnd : forms.Nodup) :
+    (fullLoads s.log).Nodup ∧ ∀ f, f ∈ fullLoads s.log ↔ f ∈ s.forms :=
+  ⟨(solve_loadsI hC hσ h hnd).nodup, (solve_loadsI hC hσ h hnd).iff⟩
+
+theorem filter_eq_some_length_le_one {l : List F} (hnd : l.Nodup) (o : Option F) :
+    (l.filter fun f => decide (o = some f)).length ≤ 1 := by
+  cases o with
+  | none => simp
+  | some a =>
+    have : (l.filter fun f => decide (some a = some f)).length = l.count a := by
+      rw [← List.countP_eq_length_filter, List.count_eq_countP]
+      apply List.countP_congr
+      intro f _
+      simp only [Option.some.injEq, decide_eq_true_eq, beq_iff_eq]
+      exact eq_comm
+    rw [this]; exact List.nodup_iff_count_le_one.mp hnd a
+
+theorem loadPushes_eq_zero {n : N} (hn : ∀ f, n ∉ C.required f) (log : List (Event N I F S)) :
+    loadPushes C n log = 0 := by
+  unfold loadPushes
+  induction fullLoads log with
+  | nil => rfl
+  | cons f fs ih =>
+    simp only [List.map_cons, List.sum_cons, ih, List.count_eq_zero_of_not_mem (hn f)]
+
+/-- **Every line is queued at most once** — for a request without repetition: the requested forms
+are pairwise distinct, required lists are duplicate-free, the extra fields are pairwise distinct and
+none of them is a required line. -/
+theorem queued_at_most_once (hC : CatWF C) (hσ : SchedOK σ) (hforms : forms.Nodup)
+    (hreq : ∀ f, (C.required f).Nodup) (hextra : extra.Nodup)
+    (hex : ∀ n ∈ extra, ∀ f, n ∉ C.required f)
+    (h : solve C σ Po inp forms extra fuel qfuel = .ok (some s)) (n : N) :
+    pushesOf n s.log ≤ 1 := by
+  rcases pushes_exact hC hσ h n with a | ⟨a, _⟩
+  · rw [a]
+    have h1 : extra.count n ≤ 1 := List.nodup_iff_count_le_one.mp hextra n
+    have h2 : loadPushes C n s.log ≤ 1 :=
+      (loadPushes_le_formLoads hC hreq n s.log).trans
+        (filter_eq_some_length_le_one (loads_distinct hC hσ h hforms).1 _)
+    by_cases hn : n ∈ extra
+    · rw [loadPushes_eq_zero (hex n hn)]; omega
+    · rw [List.count_eq_zero_of_not_mem hn]; omega
+  · omega
+
+/-- **C06 in its own wording, for a request without repetition** (`queued_at_most_once`):
+EVERY line registers a wait on each line and on each input at most once, each of its
+`MissingInputSpecification` retries loads a different form, and it is evaluated at most
+`1 + (number of distinct lines it waited for) + (number of distinct inputs it waited for)
+   + (number of input specifications it had to load)` times. -/
+theorem attempt_bound_additive (hC : CatWF C) (hσ : SchedOK σ) (hforms : forms.Nodup)
+    (hreq : ∀ f, (C.required f).Nodup) (hextra : extra.Nodup)
+    (hex : ∀ n ∈ extra, ∀ f, n ∉ C.required f)
+    (h : solve C σ Po inp forms extra fuel qfuel = .ok (some s)) (n : N) :
+    (waitsOnLines n s.log).Nodup ∧ (waitsOnInputs n s.log).Nodup ∧ (specRetries n s.log).Nodup ∧
+    attemptsOf n s.log ≤ 1 + (waitsOnLines n s.log).length + (waitsOnInputs n s.log).length +
+      (specRetries n s.log).length := by
+  obtain ⟨a, b, c⟩ := attempt_bound_queued_once hC hσ h n
+    (queued_at_most_once hC hσ hforms hreq hextra hex h n)
+  exact ⟨a, b, (attempt_bound hC hσ h n).2.1, c⟩
 
 /-- **C06, prompt bound.**  In the log of every returned state each input has at most one answered
 prompt, an answered input is present, at most one prompt was refused, and no prompt of any kind
@@ -2245,10 +2525,10 @@ theorem InU.demandPush {s s' : St N I F V S} (h : InU U UI R fl e s) {m : N} (hm
     (hwI : ∀ x ∈ waitedI allN s'.log, x ∈ waitedI allN s.log ∨ x ∈ UI)
     (hkeys : ∀ x ∈ keys s'.ideps.unmet, x ∈ keys s.ideps.unmet ∨ x ∈ UI)
     (hans : ∀ x ∈ answered s'.log, x ∈ answered s.log ∨ x ∈ UI)
-    (hrf : retryForms allN s'.log = retryForms allN s.log) (dp dl : Nat)
-    (hpu : (pushed allN s'.log).length = (pushed allN s.log).length + dp + 1)
+    (hrf : retryForms allN s'.log = retryForms allN s.log) (dp dq dl : Nat)
+    (hpu : (pushed allN s'.log).length = (pushed allN s.log).length + dp + dq)
     (hld : (fullLoads s'.log).length = (fullLoads s.log).length + dl)
-    (hdp : dp ≤ R * dl) (hdl : dl ≤ 1) : InU U UI R fl e s' := by
+    (hdp : dp ≤ R * dl) (hdl : dl ≤ 1) (hdq : dq ≤ 1) : InU U UI R fl e s' := by
   have c1 : cSol U s + 1 ≤ cSol U s' := cSol_succ hgrow hmU hm1 hm2
   have c2 : cSpec UI s ≤ cSpec UI s' := cSpec_mono hspecs
   refine ⟨htop, hsolU, ?_, ?_, ?_, ?_, ?_, ?_, ?_⟩
@@ -2351,6 +2631,73 @@ theorem InU.retry {s s1 : St N I F V S} {f : F} {x : I} {k : N} (h : InU U UI R 
   · show (fullLoads (.attempt k :: s1.log)).length ≤ fl + cSol U s1
     rw [hl, c1]; simpa using h.ld
 
+/-- `demand` of a line of the universe keeps the run inside the universe -/
+theorem InU.demand {forms : List F} {extra : List N} (hU : Universe C forms extra U UI)
+    (hR : ∀ f, (C.required f).length ≤ R) {s s1 : St N I F V S} {m : N}
+    (hi : InU U UI R fl e s) (hmU : m ∈ U) (hd : demand C σ s m = .ok s1) :
+    InU U UI R fl e s1 := by
+  rcases demand_cases hd with ⟨hmem, rfl⟩ | ⟨hmem, t, ht, _, hs1⟩
+  · exact hi
+  · -- the state after the optional load
+    have key : ∃ dp dl, (pushed allN t.log).length = (pushed allN s.log).length + dp ∧
+        (fullLoads t.log).length = (fullLoads s.log).length + dl ∧ dp ≤ R * dl ∧ dl ≤ 1 ∧
+        NoLoadTop t.log ∧ retryForms allN t.log = retryForms allN s.log ∧
+        waitedV allN t.log = waitedV allN s.log ∧ waitedI allN t.log = waitedI allN s.log ∧
+        answered t.log = answered s.log ∧ t.ideps = s.ideps ∧
+        (∀ n, n ∈ s.solving → n ∈ t.solving) ∧ (∀ n ∈ t.solving, n ∈ U) ∧
+        (∀ x, x ∈ s.specs → x ∈ t.specs) := by
+      rcases ht with ⟨_, rfl⟩ | ⟨_, f, hfo, hadd⟩
+      · exact ⟨0, 0, rfl, rfl, by omega, by omega, hi.top, rfl, rfl, rfl, rfl, rfl, fun _ h => h,
+          hi.sol, fun _ h => h⟩
+      · have hl := addForm_log hadd
+        simp only [Bool.false_eq_true, if_false] at hl
+        obtain ⟨_, _, _, _, hid, _, _, _, _, hF⟩ := addForm_ok hadd
+        obtain ⟨_, _, _, hsol⟩ := hF rfl
+        have g := addForm_grow hadd
+        refine ⟨(C.required f).length, 1, ?_, ?_, by have := hR f; omega, by omega, ?_, ?_, ?_, ?_,
+          ?_, hid, g.sol, ?_, g.specs⟩
+        · rw [hl, pushed_map_push, filter_allN]; simp; omega
+        · rw [hl, fullLoads_map_push]; simp
+        · rw [hl]; exact noLoadTop_map_push _ _ (noLoadTop_cons _ (by intro g hg; cases hg))
+        · rw [hl, retryForms_map_push]; simp
+        · rw [hl, waitedV_map_push]; simp
+        · rw [hl, waitedI_map_push]; simp
+        · rw [hl, answered_map_push]; simp
+        · intro n hn
+          rcases (hsol n).mp hn with hn | hn
+          · exact hi.sol n hn
+          · exact hU.reqDemand m hmU f hfo n hn
+    obtain ⟨dp, dl, k1, k2, k3, k4, k5, k6, k7, k8, k9, k10, k11, k12, k13⟩ := key
+    rcases hs1 with ⟨hmt, rfl⟩ | ⟨hmt, rfl⟩
+    · -- the load has already scheduled `m`
+      exact hi.demandPush hmU hmem hmt k11 k12 k13 k5 (fun j hj => Or.inl (by rw [← k7]; exact hj))
+        (fun y hy => Or.inl (by rw [← k8]; exact hy)) (fun y hy => Or.inl (by rw [← k10]; exact hy))
+        (fun y hy => Or.inl (by rw [← k9]; exact hy)) k6 dp 0 dl (by omega) k2 k3 k4 (by omega)
+    · refine hi.demandPush hmU hmem (by show m ∈ t.solving ++ [m]; simp)
+        (fun n hn => by show n ∈ t.solving ++ [m]; exact List.mem_append_left _ (k11 n hn))
+        ?_ k13 (noLoadTop_cons _ (by intro g hg; cases hg)) ?_ ?_ ?_ ?_ ?_ dp 1 dl ?_ k2 k3 k4 (by omega)
+      · intro n hn
+        have hn' : n ∈ t.solving ++ [m] := hn
+        rcases List.mem_append.mp hn' with hn' | hn'
+        · exact k12 n hn'
+        · rw [List.mem_singleton.mp hn']; exact hmU
+      · intro j hj
+        have hj' : j ∈ waitedV allN (.push m :: t.log) := hj
+        rw [waitedV_push, k7] at hj'; exact Or.inl hj'
+      · intro y hy
+        have hy' : y ∈ waitedI allN (.push m :: t.log) := hy
+        rw [waitedI_push, k8] at hy'; exact Or.inl hy'
+      · intro y hy
+        have hy' : y ∈ keys t.ideps.unmet := hy
+        rw [k10] at hy'; exact Or.inl hy'
+      · intro y hy
+        have hy' : y ∈ answered (.push m :: t.log) := hy
+        rw [answered_push, k9] at hy'; exact Or.inl hy'
+      · show retryForms allN (.push m :: t.log) = _
+        rw [retryForms_push, k6]
+      · show (pushed allN (.push m :: t.log)).length = _
+        simp only [pushed_push, allN_apply, if_true, List.length_cons, k1]
+
 /-- one `_attempt_field` keeps the run inside the universe -/
 theorem InU.field (hC : CatWF C) (hσ : SchedOK σ) {forms : List F} {extra : List N}
     (hU : Universe C forms extra U UI) (hR : ∀ f, (C.required f).length ≤ R) {L : List N} {k : N}
@@ -2368,86 +2715,19 @@ theorem InU.field (hC : CatWF C) (hσ : SchedOK σ) {forms : List F} {extra : Li
   · intro s s1 m hinv hm hd hi
     have hk : k ∈ U := hi.sol k (hinv.qDem k (Or.inr List.mem_cons_self))
     have hmU : m ∈ U := hU.readV k hk s.vf (s.inf C) s.ff m hm
-    rcases demand_cases hd with ⟨hmem, rfl⟩ | ⟨hmem, t, ht, _, rfl⟩
-    · refine hi.frame (noLoadTop_cons _ (by intro g hg; cases hg)) rfl rfl ?_ ?_ ?_ ?_ ?_ ?_ ?_
-      · intro j hj
-        have hj' : j ∈ waitedV allN (.waitV k m :: .attempt k :: (if m ∈ s1.solving then s1.log else .push m :: s1.log)) := hj
-        simp only [hmem, if_true, waitedV_waitV, allN_apply, waitedV_attempt, List.mem_cons] at hj'
-        rcases hj' with rfl | hj'
-        · exact Or.inr hmU
-        · exact Or.inl hj'
-      · intro y hy; exact Or.inl (by simpa [hmem] using hy)
-      · intro y hy; exact Or.inl hy
-      · intro y hy; exact Or.inl (by simpa [hmem] using hy)
-      · show retryForms allN (.waitV k m :: .attempt k :: (if m ∈ s1.solving then s1.log else .push m :: s1.log)) = _
-        rw [if_pos hmem, retryForms_waitV, retryForms_attempt_of_top allN _ k hi.top]
-      · simp [hmem]
-      · simp [hmem]
-    · -- the state after the optional load
-      have key : ∃ dp dl, (pushed allN t.log).length = (pushed allN s.log).length + dp ∧
-          (fullLoads t.log).length = (fullLoads s.log).length + dl ∧ dp ≤ R * dl ∧ dl ≤ 1 ∧
-          NoLoadTop t.log ∧ retryForms allN t.log = retryForms allN s.log ∧
-          waitedV allN t.log = waitedV allN s.log ∧ waitedI allN t.log = waitedI allN s.log ∧
-          answered t.log = answered s.log ∧ t.ideps = s.ideps ∧
-          (∀ n, n ∈ s.solving → n ∈ t.solving) ∧ (∀ n ∈ t.solving, n ∈ U) ∧
-          (∀ x, x ∈ s.specs → x ∈ t.specs) := by
-        rcases ht with ⟨_, rfl⟩ | ⟨_, f, hfo, hadd⟩
-        · exact ⟨0, 0, rfl, rfl, by omega, by omega, hi.top, rfl, rfl, rfl, rfl, rfl, fun _ h => h,
-            hi.sol, fun _ h => h⟩
-        · have hl := addForm_log hadd
-          simp only [Bool.false_eq_true, if_false] at hl
-          obtain ⟨_, _, _, _, hid, _, _, _, _, hF⟩ := addForm_ok hadd
-          obtain ⟨_, _, _, hsol⟩ := hF rfl
-          have g := addForm_grow hadd
-          refine ⟨(C.required f).length, 1, ?_, ?_, by have := hR f; omega, by omega, ?_, ?_, ?_, ?_,
-            ?_, hid, g.sol, ?_, g.specs⟩
-          · rw [hl, pushed_map_push, filter_allN]; simp; omega
-          · rw [hl, fullLoads_map_push]; simp
-          · rw [hl]; exact noLoadTop_map_push _ _ (noLoadTop_cons _ (by intro g hg; cases hg))
-          · rw [hl, retryForms_map_push]; simp
-          · rw [hl, waitedV_map_push]; simp
-          · rw [hl, waitedI_map_push]; simp
-          · rw [hl, answered_map_push]; simp
-          · intro n hn
-            rcases (hsol n).mp hn with hn | hn
-            · exact hi.sol n hn
-            · exact hU.reqDemand m hmU f hfo n hn
-      obtain ⟨dp, dl, k1, k2, k3, k4, k5, k6, k7, k8, k9, k10, k11, k12, k13⟩ := key
-      refine hi.demandPush hmU hmem (by show m ∈ t.solving ++ [m]; simp)
-        (fun n hn => by show n ∈ t.solving ++ [m]; exact List.mem_append_left _ (k11 n hn))
-        ?_ k13 (noLoadTop_cons _ (by intro g hg; cases hg)) ?_ ?_ ?_ ?_ ?_ dp dl ?_ ?_ k3 k4
-      · intro n hn
-        have hn' : n ∈ t.solving ++ [m] := hn
-        rcases List.mem_append.mp hn' with hn' | hn'
-        · exact k12 n hn'
-        · rw [List.mem_singleton.mp hn']; exact hmU
-      · intro j hj
-        have hj' : j ∈ waitedV allN (.waitV k m :: .attempt k :: (if m ∈ s.solving then t.log else .push m :: t.log)) := hj
-        simp only [hmem, if_false, waitedV_waitV, allN_apply, if_true, waitedV_attempt, waitedV_push,
-          List.mem_cons, k7] at hj'
-        rcases hj' with rfl | hj'
-        · exact Or.inr hmU
-        · exact Or.inl hj'
-      · intro y hy
-        have hy' : y ∈ waitedI allN (.waitV k m :: .attempt k :: (if m ∈ s.solving then t.log else .push m :: t.log)) := hy
-        simp only [hmem, if_false, waitedI_waitV, waitedI_attempt, waitedI_push, k8] at hy'
-        exact Or.inl hy'
-      · intro y hy
-        have hy' : y ∈ keys t.ideps.unmet := hy
-        rw [k10] at hy'; exact Or.inl hy'
-      · intro y hy
-        have hy' : y ∈ answered (.waitV k m :: .attempt k :: (if m ∈ s.solving then t.log else .push m :: t.log)) := hy
-        simp only [hmem, if_false, answered_waitV, answered_attempt, answered_push, k9] at hy'
-        exact Or.inl hy'
-      · show retryForms allN (.waitV k m :: .attempt k :: (if m ∈ s.solving then t.log else .push m :: t.log)) = _
-        rw [if_neg hmem, retryForms_waitV, retryForms_attempt_of_top allN _ k
-          (noLoadTop_cons _ (by intro g hg; cases hg)), retryForms_push, k6]
-      · show (pushed allN (.waitV k m :: .attempt k :: (if m ∈ s.solving then t.log else .push m :: t.log))).length = _
-        rw [if_neg hmem]
-        simp only [pushed_waitV, pushed_attempt, pushed_push, allN_apply, if_true, List.length_cons, k1]
-      · show (fullLoads (.waitV k m :: .attempt k :: (if m ∈ s.solving then t.log else .push m :: t.log))).length = _
-        rw [if_neg hmem]
-        simp only [fullLoads_waitV, fullLoads_attempt, fullLoads_push, k2]
+    have hi1 : InU U UI R fl e s1 := hi.demand hU hR hmU hd
+    refine hi1.frame (noLoadTop_cons _ (by intro g hg; cases hg)) rfl rfl ?_ ?_ ?_ ?_ ?_ rfl rfl
+    · intro j hj
+      have hj' : j ∈ waitedV allN (.waitV k m :: .attempt k :: s1.log) := hj
+      simp only [waitedV_waitV, allN_apply, if_true, waitedV_attempt, List.mem_cons] at hj'
+      rcases hj' with rfl | hj'
+      · exact Or.inr hmU
+      · exact Or.inl hj'
+    · intro y hy; exact Or.inl (by simpa using hy)
+    · intro y hy; exact Or.inl hy
+    · intro y hy; exact Or.inl (by simpa using hy)
+    · show retryForms allN (.waitV k m :: .attempt k :: s1.log) = _
+      rw [retryForms_waitV, retryForms_attempt_of_top allN _ k hi1.top]
   · intro s x hinv hx hi
     have hk : k ∈ U := hi.sol k (hinv.qDem k (Or.inr List.mem_cons_self))
     have hxU : x ∈ UI := hU.readI k hk s.vf (s.inf C) s.ff x hx
@@ -3106,16 +3386,18 @@ example (σ : Sched String String) (hσ : SchedOK σ)
       (2 * attemptBound 3 1 1 0 2 + 1 + 3) (attemptBound 3 1 1 0 2 + 1) ≠ .ok none :=
   solve_terminates cat_wf hσ cat_universe required_le Po inp
 
-/-- … and in every state it returns, the cycle member `a.2` (queued once: it is not required) was
-evaluated at most `1 + (distinct waits) + retries` times -/
+theorem required_nodup (f : String) : (cat.required f).Nodup := by
+  by_cases hf : f = "a" <;> simp [cat, hf]
+
+/-- … and in every state it returns EVERY line — the cycle members and the self-referential line
+included — was evaluated at most `1 + (distinct waits) + (input specifications loaded)` times -/
 example (σ : Sched String String) (hσ : SchedOK σ)
     (Po : Option (Nat → String → List String → Option String)) (inp : List (String × String))
     (fuel qfuel : Nat) (s : St String String String Int String)
-    (h : solve cat σ Po inp ["a"] [] fuel qfuel = .ok (some s)) :
-    attemptsOf "a.2" s.log ≤
-      pushesOf "a.2" s.log * (1 + (waitsOnLines "a.2" s.log).dedup.length +
-        (waitsOnInputs "a.2" s.log).dedup.length) + (specRetries "a.2" s.log).length :=
-  (attempt_bound cat_wf hσ h "a.2").1
+    (h : solve cat σ Po inp ["a"] [] fuel qfuel = .ok (some s)) (n : String) :
+    attemptsOf n s.log ≤ 1 + (waitsOnLines n s.log).length + (waitsOnInputs n s.log).length +
+      (specRetries n s.log).length :=
+  (attempt_bound_additive cat_wf hσ (by simp) required_nodup (by simp) (by simp) h n).2.2.2
 
 end HabuVerif.TerminationExamples
 
@@ -3123,6 +3405,10 @@ end HabuVerif.TerminationExamples
 #print axioms HabuVerif.wait_multiplicity
 #print axioms HabuVerif.attempt_bound
 #print axioms HabuVerif.attempt_bound_queued_once
+#print axioms HabuVerif.pushes_exact
+#print axioms HabuVerif.loads_distinct
+#print axioms HabuVerif.queued_at_most_once
+#print axioms HabuVerif.attempt_bound_additive
 #print axioms HabuVerif.loadPushes_le_formLoads
 #print axioms HabuVerif.prompt_at_most_once
 #print axioms HabuVerif.solve_fuel_mono
